@@ -9,6 +9,7 @@ WORLDS = {
     "w11": {"pkg": "pkg/broker", "harness": "w11", "weave": MAIN_WEAVE},
     "w8": {"pkg": "internal/console", "harness": "w8", "weave": MAIN_WEAVE},
     "w3": {"pkg": "pkg/metadata", "harness": "w3", "weave": MAIN_WEAVE},
+    "w4": {"pkg": "cmd/proxy", "harness": "w4", "weave": MAIN_WEAVE},
 }
 
 def P(world, **kw):
@@ -61,6 +62,11 @@ PROPS = {
              level_note="brokers' EtcdStores only at this commit: the operator's snapshot merge is not in this world"),
     "C19": P("w1", quick_runs=2500, thorough_runs=120000, quick_budget_s=120, thorough_budget_s=1500, required_probes=["c19.acked-append-judged", "c19.not-leader"],
              level_text="2-3 real broker handlers with real EtcdStores and lease managers on one simulated etcd and one simulated S3; the lease state is read from the etcd stub at the scheduler step each AppendBatch executes (woven site observer)"),
+    "C27": P("w4", quick_runs=4000, thorough_runs=300000, quick_budget_s=100, thorough_budget_s=1500,
+             required_probes=["c27.produce-entry-success", "c27.fetch-entry-success", "c27.produce-entry-error"]),
+    "C28": P("w4", quick_runs=4000, thorough_runs=300000, quick_budget_s=100, thorough_budget_s=1500,
+             required_probes=["c28.topology-judged", "c28.coordinator-reply"],
+             level_text="generated cluster metadata snapshots and metadata / coordinator requests (every version, all topics / by name / by id) against the real proxy while the simulator changes the cluster metadata, delays and fails the store and holds the proxy in its not-ready state; mostly input generation, the simulator contributes the ready/not-ready/stale-cache states and the concurrent snapshot changes"),
 }
 
 NA = {
